@@ -13,7 +13,7 @@ import (
 func init() {
 	register(&propDef{
 		ID:          "C16",
-		Explanation: "Render equality between watch mode and a fresh build is not decided. Decides writer/reader agreement of the development text-file protocol and the coverage of the recompilation key: R1 every literal the generator can collect is a valid interpreted-string body without a raw newline (GEM, all literal emissions) — needed both for the Go file and for the one-literal-per-line text file; R2 (a) the separator constant the command joins the literals with equals the one both readers split with, (b) the emitted literal index is the 1-based position of the literal in the collected list (counter incremented, literal appended and index emitted in the same step) and the readers index [index-1] after an `index > len` rejection, (c) the literal is emitted between double quotes and the readers unquote \"<line>\", (d) writer and reader compute the text-file name with the same function; R3 the recompilation key (HasChanged) compares every generator option that changes emitted Go, the literal count and the expression list element-wise, and covers the kind of sink an expression is emitted into; R4 within one debounce window of the watch loop the `needs recompilation` and `text updated` flags are accumulated (||) over all events, never overwritten by the last one. R5 each `has this output changed` hash is sha256 of the very value that is written under that name; R6 (= C07.R1) every written Go expression is registered with the source map unconditionally — HasChanged compares the registered expression list, so a skipped registration hides a change that needs recompilation. R7 the shared text-file name function maps a …_templ.go name to the template's name before it resolves the path (Abs / EvalSymlinks), so the generator and the running program resolve the same file. NOT decided: file-system timing of the 100 ms cache, equality of rendered bytes. R8 no error result is dropped in the watcher / modification-check path; R9 closures run later read no per-event loop state; R10 modification times stay time.Time (never truncated or turned into integers); R11 the hash upsert stores the new hash whenever it reports a change. R11 also follows forwarding (see C15.R20). R12 the send of a debounced file event on the watcher's channel is not an arm of a select with a default clause. R13 a file that is renamed onto its target is not created in os.TempDir() (os.CreateTemp(\"\", …)): os.Rename does not cross file systems.",
+		Explanation: "Render equality between watch mode and a fresh build is not decided. Decides writer/reader agreement of the development text-file protocol and the coverage of the recompilation key: R1 every literal the generator can collect is a valid interpreted-string body without a raw newline (GEM, all literal emissions) — needed both for the Go file and for the one-literal-per-line text file; R2 (a) the separator constant the command joins the literals with equals the one both readers split with, (b) the emitted literal index is the 1-based position of the literal in the collected list (counter incremented, literal appended and index emitted in the same step) and the readers index [index-1] after an `index > len` rejection, (c) the literal is emitted between double quotes and the readers unquote \"<line>\", (d) writer and reader compute the text-file name with the same function; R3 the recompilation key (HasChanged) compares every generator option that changes emitted Go, the literal count and the expression list element-wise, and covers the kind of sink an expression is emitted into; R4 within one debounce window of the watch loop the `needs recompilation` and `text updated` flags are accumulated (||) over all events, never overwritten by the last one. R5 each `has this output changed` hash is sha256 of the very value that is written under that name; R6 (= C07.R1) every written Go expression is registered with the source map unconditionally — HasChanged compares the registered expression list, so a skipped registration hides a change that needs recompilation. R7 the shared text-file name function maps a …_templ.go name to the template's name before it resolves the path (Abs / EvalSymlinks), so the generator and the running program resolve the same file. NOT decided: file-system timing of the 100 ms cache, equality of rendered bytes. R8 no error result is dropped in the watcher / modification-check path; R9 closures run later read no per-event loop state; R10 modification times stay time.Time (never truncated or turned into integers); R11 the hash upsert stores the new hash whenever it reports a change. R11 also follows forwarding (see C15.R20). R12 the send of a debounced file event on the watcher's channel is not an arm of a select with a default clause. R13 a file that is renamed onto its target is not created in os.TempDir() (os.CreateTemp(\"\", …)): os.Rename does not cross file systems. R14 a file's modification time is compared with a recorded modification time, never with a value that comes from time.Now() (followed through fields to their stores).",
 		Assumptions: []string{"strconv.Unquote inverts the generator's escapeQuotes (strconv.Quote without the outer quotes)"},
 		Trusted:     []string{"go/types", "go/parser", "x/tools go/packages", "strconv"},
 		Run:         runC16,
@@ -31,6 +31,7 @@ func runC16(c *Ctx) {
 	upsertRecordsWhatItReports(c, "C16.R11")
 	fileEventsAreNotDropped(c, "C16.R12", "cmd/templ/generatecmd/watcher")
 	renamedFilesAreCreatedNextToTheirTarget(c, "C16.R13", "cmd/templ/generatecmd", "generator", "runtime")
+	modTimesComparedWithModTimes(c, "C16.R14", ".", "runtime", "cmd/templ/generatecmd")
 	gLit(c, "C16.R1")
 
 	// R2 (a): separators ---------------------------------------------------------------
